@@ -285,6 +285,31 @@ func c02Run(c *C) {
 				c.Nontrivial("nextdoor:" + src)
 			}
 			c.Cover("optout_next_door")
+			// a sandboxed set: banning filters (even the escaping ones) or the autoescape tag takes nothing away from autoescaping
+			for _, bans := range [][]string{{"escape"}, {"e", "escape", "safe", "force_escape"}, {"safe"}, {"upper"}} {
+				bset, _ := newSet(map[string]string{"/inc.tpl": "{{ t1 }}{{ q }}"})
+				for _, b := range bans {
+					bset.BanFilter(b)
+				}
+				bset.BanTag("autoescape")
+				src := `{{ t1 }}{% for i in tl %}{{ i }}{% endfor %}{{ tm.a }}{{ ts }}{{ tenum }}{% firstof t1 %}{% cycle t1 t2 %}{% with w=t2 %}{{ w }}{% endwith %}{% macro m(a) %}{{ a }}{% endmacro %}{{ m(t1) }}{% include "/inc.tpl" with q=t2 %}{% filter lower %}{{ t1 }}{% endfilter %}{{ t1|lower }}{{ tstruct.Field }}`
+				btpl, berr := bset.FromString(src)
+				if berr != nil {
+					c.Fail("setup", D{"source": src, "bans": bans, "error": berr.Error()})
+					return
+				}
+				bout, bxerr := btpl.Execute(c02Ctx(false))
+				c.Eval(1)
+				if bxerr != nil {
+					c.Fail("setup", D{"source": src, "bans": bans, "error": bxerr.Error()})
+					return
+				}
+				if leak := c02Leak(bout, true); leak != "" || strings.Contains(bout, c02Marker) {
+					c.Fail("raw-leak", D{"source": src, "banned_filters_of_the_set": bans, "banned_tags_of_the_set": []string{"autoescape"}, "output": q(truncStr(bout, 600)), "leak": q(leak), "why": "a ban in the sandbox switched escaping off"})
+					return
+				}
+			}
+			c.Cover("autoescape_in_sandboxed_sets")
 			return
 		}
 		if c02OptOutFilters[f] {
